@@ -277,6 +277,14 @@ fn kind_of(c: &ChanSpec) -> (bool, bool) { (c.ordered, c.max_retransmits.is_some
 /// property oracles on the implementation
 fn oracle(c: &Case, o: &Outcome) -> Vec<(String, String)> {
     let mut fails = vec![];
+    // the wire of these runs — channel closes (RE-CONFIG), teardown (ABORT / SHUTDOWN-ACK / SHUTDOWN-COMPLETE), DCEP, FORWARD-TSN,
+    // scripted datagrams — under C13's packet rules (size, CRC-32C, verification tag, consecutive TSNs) and its quiescence
+    // rule; the window clause stays C13's own (its two recorded findings would show up here under C12's name).
+    // Injected datagrams (End::Inject / End::Script) are the harness' own and are not on `o.wire`.
+    for (sig, d) in crate::props::c13::wire_verdict(&o.wire).fails { fails.push((format!("wire:{sig}"), d)); }
+    for side in 0..2 {
+        for (sig, d) in crate::props::c13::txw_lines(side, c, o).2 { if sig.starts_with("quiescence:") { fails.push((sig, d)); } }
+    }
     let any_pr = c.chans.iter().flatten().any(|ch| kind_of(ch).1);
     // channel table: every channel created anywhere, by id
     let mut specs: Vec<ChanSpec> = vec![];
